@@ -4,7 +4,7 @@ use hashbrown::HashMap;
 use p3_field::Field;
 
 use super::analysis::AluKey;
-use crate::ops::Op;
+use crate::ops::{AluOpKind, Op};
 use crate::types::WitnessId;
 
 /// Removes duplicate ALU operations by tracking a canonical output per `AluKey`.
@@ -61,18 +61,27 @@ impl Deduplicator {
     /// Returns `Some((duplicate_out, canonical_out))` when `op` duplicates an earlier ALU.
     fn detect_duplicate<F: Field>(&mut self, op: &Op<F>) -> Option<(WitnessId, WitnessId)> {
         let Op::Alu {
-            kind, a, b, c, out, ..
+            kind,
+            a,
+            b,
+            c,
+            out,
+            intermediate_out,
         } = op
         else {
             return None;
         };
 
-        let key = AluKey::new(
+        let mut key = AluKey::new(
             *kind,
             a.resolve(&self.rewrite),
             b.resolve(&self.rewrite),
             c.map(|id| id.resolve(&self.rewrite)),
         );
+        if *kind == AluOpKind::HornerAcc {
+            // For HornerAcc, `intermediate_out` names the accumulator input.
+            key = key.with_acc(intermediate_out.map(|id| id.resolve(&self.rewrite)));
+        }
 
         if let Some(&canonical) = self.seen.get(&key) {
             Some((*out, canonical))
